@@ -558,6 +558,41 @@ func TestC17(t *testing.T) {
 			if err, p := safeInit(&dialect.ReadWriter{Dialect: d}); err == nil && p == nil {
 				rep.Violation("dialect=user what=accepts:"+class+":reinit", "a Dialect value that became invalid ("+class+") after a first successful initialisation was accepted", class)
 			}
+			// the same ReadWriter object initialised again after its Dialect value (same pointer, same number of messages) was
+			// changed in place: it is judged, and answers lookups, with the dialect as it is now
+			if len(msgs) >= 2 {
+				d2 := &dialect.Dialect{Version: 3, Messages: append([]message.Message{}, msgs...)}
+				rw2 := &dialect.ReadWriter{Dialect: d2}
+				if err, p := safeInit(rw2); err == nil && p == nil {
+					victim := r.Intn(len(d2.Messages))
+					oldID := d2.Messages[victim].GetID()
+					has := false
+					for _, m := range msgs {
+						has = has || m.GetID() == 60100
+					}
+					if !has {
+						d2.Messages[victim] = &MessageFineDup{}
+						rep.Count("same_readwriter_reinitialised_after_in_place_change", 1)
+						if err, p := safeInit(rw2); err != nil || p != nil {
+							rep.Violation("dialect=user what=init", fmt.Sprintf("a ReadWriter could not be initialised again after a valid in-place change of its dialect: %v %v", err, p), nil)
+						} else {
+							if rw2.GetMessage(60100) == nil {
+								rep.Violation("dialect=user what=lookup:reinit", "after a message was replaced in place and the same ReadWriter initialised again, the new message's id is not found", nil)
+							}
+							if rw2.GetMessage(oldID) != nil {
+								rep.Violation("dialect=user what=lookup:reinit", "after a message was replaced in place and the same ReadWriter initialised again, the id of the removed message still yields a codec", oldID)
+							}
+						}
+					}
+					d2.Messages[victim] = inject
+					if class == "duplicate-id" {
+						d2.Messages[0] = d2.Messages[len(d2.Messages)-1]
+					}
+					if err, p := safeInit(rw2); err == nil && p == nil {
+						rep.Violation("dialect=user what=accepts:"+class+":reinit", "the same ReadWriter, initialised again after its dialect became invalid ("+class+") by an in-place replacement, accepted it", class)
+					}
+				}
+			}
 			// and a valid extension must be visible
 			d.Messages = append(append([]message.Message{}, msgs...), &MessageFineDup{})
 			has := false
